@@ -116,7 +116,8 @@ Definition next_if_ote {A} (r : res A) (k : res A) : res A := match r with Diag 
 Definition create_operand (s : text) (i : irow) : res operand :=
   if Tables.is_pseudo i then pseudo_operand s i
   else if Tables.is_special i then Ok (OSpecial s)
-  else if is_branch i then do v <- create_value s i true; Ok (ORelative v)
+  else if is_branch i && negb (match s with c :: _ => (c =? 35) || (c =? 60) || (c =? 62) | [] => false end)
+       then do v <- create_value s i true; Ok (ORelative v)
   else match s with
   | [] => Ok OInherent
   | _ =>
